@@ -14,6 +14,7 @@ import (
 // members, judged by the same observer as the PRNG leg.
 func TestVerifC14Enum(t *testing.T) {
 	r := verifkit.Start(t, "C14", "enum")
+	gSeedSalt = r.Seed
 	sub := []string{"ta"}
 	spec := gEnumSpec{
 		Cfg: gConfig{Topics: map[string]int{"ta": 2}, Universe: []string{"ta"}, M: 3,
